@@ -129,3 +129,51 @@ Qed.
 
 Lemma gen_save_switch b : save_switch_boolean b = (b <=? 1).
 Proof. reflexivity. Qed.
+
+(* ---------- the string holder (sc_option_string_t) ---------------------------------------------------------------------------- *)
+(* sc_options_string_set - the one place where sc_options_parse, sc_options_load_ini and sc_options_load_json store a string
+   option: the old copy is freed, the new text duplicated, and the duplicate is stored in s->string_value AND in the user's
+   variable - unconditionally: nothing is compared with what the library remembers.  This is the model's string_set, which
+   writes the variable whatever it holds (the model keeps no copy at all). *)
+Lemma gen_holder_set old newv dup : holder_set old newv dup = (dup, dup, old, newv).
+Proof. reflexivity. Qed.
+
+Lemma model_string_set_stores sobjs st id v :
+  st_get (string_set sobjs st id v) (match al_get sobjs id with Some s => so_var s | None => O end) = VS v.
+Proof. unfold string_set, st_set. cbn [st_get]. rewrite Nat.eqb_refl. reflexivity. Qed.
+
+(* sc_options_string_get (what save and print_summary read): the variable is compared with the stored copy - both NULL, or both
+   set and strcmp = 0 - and when they differ the copy is replaced by a duplicate of the VARIABLE; the copy is returned.  With an
+   interpretation txt of addresses as texts (NULL = no text; strcmp = 0 iff the texts are equal; the duplicate holds the text of
+   its argument) the returned text is the text of the variable: the model's string_get, which reads the variable. *)
+Lemma gen_holder_get var val cmp dup :
+  holder_get var val cmp dup =
+  if (negb (Bool.eqb (var =? 0) (val =? 0))) || (negb (var =? 0) && negb (val =? 0) && negb (cmp =? 0))
+  then (dup, dup, val, var) else (val, val, 0, 0).
+Proof.
+  unfold holder_get, z2b, b2z. destruct (var =? 0), (val =? 0), (cmp =? 0); reflexivity.
+Qed.
+
+Lemma gen_holder_get_text (txt : Z -> option str) var val cmp dup :
+  (forall p, txt p = None <-> p = 0) -> (var <> 0 -> val <> 0 -> (cmp = 0 <-> txt var = txt val)) -> txt dup = txt var ->
+  txt (fst (fst (fst (holder_get var val cmp dup)))) = txt var.
+Proof.
+  intros Hnull Hcmp Hdup. rewrite gen_holder_get.
+  destruct (Z.eqb_spec var 0) as [Ev|Ev], (Z.eqb_spec val 0) as [El|El]; cbn [Bool.eqb negb orb andb fst].
+  - subst. reflexivity.
+  - exact Hdup.
+  - exact Hdup.
+  - destruct (Z.eqb_spec cmp 0) as [Ec|Ec]; cbn [negb fst]; [|exact Hdup]. symmetry. apply (Hcmp Ev El). exact Ec.
+Qed.
+
+Lemma gen_string_holder old newv dup var val cmp :
+  holder_set old newv dup = (dup, dup, old, newv) /\
+  holder_get var val cmp dup =
+    (if (negb (Bool.eqb (var =? 0) (val =? 0))) || (negb (var =? 0) && negb (val =? 0) && negb (cmp =? 0))
+     then (dup, dup, val, var) else (val, val, 0, 0)) /\
+  (forall txt : Z -> option str, (forall p, txt p = None <-> p = 0) -> (var <> 0 -> val <> 0 -> (cmp = 0 <-> txt var = txt val)) ->
+     txt dup = txt var -> txt (fst (fst (fst (holder_get var val cmp dup)))) = txt var) /\
+  (forall sobjs st id v, st_get (string_set sobjs st id v) (match al_get sobjs id with Some s => so_var s | None => O end) = VS v).
+Proof.
+  split; [apply gen_holder_set|]. split; [apply gen_holder_get|]. split; [intros txt; apply gen_holder_get_text|apply model_string_set_stores].
+Qed.
